@@ -56,10 +56,13 @@ def run(ctx):
         for bb, t in callee.calls():
             if callee_name(t["fn"].get("path", "")) == "push" and e.call_args(bb)[0] == ("field", ("param", callee.path, 1), "requests"):
                 tup = e.call_args(bb)[1]
-                okt = tup[0] == "agg" and tup[1] == "tuple" and all(x[0] == "param" for x in tup[2]) and len(tup[2]) == 2
+                okt = tup[0] == "agg" and all(x[0] == "param" for x in tup[2]) and len(tup[2]) == 2
                 if okt:
-                    bound = [args[x[2] - 1] for x in tup[2]]
-                    okt = bound[0] in nonce_arg and bound[1] == addr
+                    # (nonce, src_addr) as a tuple, or a small struct with those two fields
+                    QR = sm.queue_roles(ctx, W)
+                    names = [str(n) for n in (tup[3] if len(tup) > 3 and tup[3] else ("0", "1"))]
+                    byname = {n: args[x[2] - 1] for n, x in zip(names, tup[2])}
+                    okt = byname.get(QR["nonce"]) in nonce_arg and byname.get(QR["addr"]) == addr
                 ctx.check("routing", key + "/stores-nonce-then-address", okt, "requests.push((nonce, src_addr)) with the values passed in",
                           "%s pushes %s" % (callee.path, fmt(tup)), callee.loc(bb))
         # statistics op recorded in the same arm
